@@ -131,8 +131,7 @@ Definition tvs_eqb (e : tv -> tv -> bool) : list tv -> list tv -> bool :=
     | _, _ => false
     end.
 
-(** structural equality (bit equality on floats; the generated messages hold
-    no NaN, on which proto.Equal and bit equality could differ) *)
+(** structural equality (bit equality on floats): used to compare dumps *)
 Fixpoint tv_eqb (a b : tv) {struct a} : bool :=
   match a, b with
   | TVnil, TVnil | TVunset, TVunset | TVAny, TVAny
@@ -148,8 +147,18 @@ Fixpoint tv_eqb (a b : tv) {struct a} : bool :=
   | _, _ => false
   end.
 
+(** proto.Equal on TypedValue: as [tv_eqb], but floating-point fields compare
+    with Go's [==] (so +0 equals -0) and two NaNs are equal *)
+Fixpoint tv_peqb (a b : tv) {struct a} : bool :=
+  match a, b with
+  | TVFloat x, TVFloat y => f32_eq x y || (f32_is_nan x && f32_is_nan y)
+  | TVDouble x, TVDouble y => f64_eq x y || (f64_is_nan x && f64_is_nan y)
+  | TVLeaflist l, TVLeaflist l' => tvs_eqb tv_peqb l l'
+  | _, _ => tv_eqb a b
+  end.
+
 Definition upd_eqb (a b : upd) : bool :=
-  ogpath_eqb (u_path a) (u_path b) && tv_eqb (u_val a) (u_val b).
+  ogpath_eqb (u_path a) (u_path b) && tv_peqb (u_val a) (u_val b).
 
 Definition notif_eqb (a b : notif) : bool :=
   Z.eqb (n_ts a) (n_ts b) &&
